@@ -350,7 +350,9 @@ class Extractor(object):
         shift = args[2] if len(args) > 2 else kwargs.get('shift', 0)
         delims = args[3] if len(args) > 3 else kwargs.get('delimeters', True)
         spath = start[0].path if isinstance(start, tuple) and isinstance(start[0], SymPos) else repr(start)
-        return LocExpr('text_search', spath, (str(ident), getattr(ident, 'path', None), shift, delims))
+        extras = tuple(('arg%d' % i, a) for i, a in enumerate(args[4:])) + \
+            tuple(sorted((k, v) for k, v in kwargs.items() if k not in ('shift', 'delimeters')))
+        return LocExpr('text_search', spath, (str(ident), getattr(ident, 'path', None), shift, delims, extras))
 
     def h_visitor_attr(self, it, obj, attr):
         if attr == 'visit':
@@ -534,7 +536,13 @@ class Extractor(object):
         for v in top.attrs.values():
             if isinstance(v, dict):
                 gn.update(v)
-        ps.top_state = {'global_names': gn}
+        registered = set()
+        for v in top.attrs.values():
+            if isinstance(v, list):
+                for o in v:
+                    if isinstance(o, Obj) and o.cls.name in ('Flow', 'LoopFlow'):
+                        registered.add(rtok(o))
+        ps.top_state = {'global_names': gn, 'registered': registered}
         ps.tokens = tokens
         ps.rtok = rtok
         ps.stok = stok
